@@ -18,16 +18,21 @@
      sw_globalargs module level: pass read & (written | maybe_written) (the code: read & postread & written)
      sw_loopprew  a write in or after the region but inside a loop that encloses the region also counts as
                   prewritten: it reaches the region in the next iteration (the code: only textually earlier
-                  writes) *)
+                  writes)
+     sw_compiter  the iterable of a comprehension is visited (in the enclosing scope) before the snapshot of
+                  read / written / maybe_written is taken, so that a read of an outer name that is spelled like
+                  the comprehension's loop variable survives `read - comp_names | read` (the code: it is lost) *)
 From Coq Require Import List NArith ZArith Bool.
 From RopeVerif.C03 Require Import Flow.
 Import ListNotations.
 
 Record switches := { sw_restore : bool; sw_balanced : bool; sw_killnest : bool;
-                      sw_readmaybe : bool; sw_loopall : bool; sw_globalargs : bool; sw_loopprew : bool }.
+                      sw_readmaybe : bool; sw_loopall : bool; sw_globalargs : bool; sw_loopprew : bool;
+                      sw_compiter : bool }.
 Definition as_is : switches :=
   {| sw_restore := false; sw_balanced := false; sw_killnest := false;
-     sw_readmaybe := false; sw_loopall := false; sw_globalargs := false; sw_loopprew := false |}.
+     sw_readmaybe := false; sw_loopall := false; sw_globalargs := false; sw_loopprew := false;
+     sw_compiter := false |}.
 
 (* OrderedSets are lists in insertion order *)
 Record cst := {
@@ -39,6 +44,7 @@ Definition cst0 : cst :=
 
 Definition name_print : var := 0%N.
 Definition name_range : var := 1%N.
+Definition name_sum : var := 11%N.
 
 Definition line_of (s : stmt) : N :=
   match s with
@@ -122,6 +128,18 @@ Section Collect.
     | EVar x => read_var x l s
     | EConst _ => s
     | EBin _ a b => visit_e l b (visit_e l a s)
+    | EComp v k b =>
+        (* Call(Name sum, [ListComp | GeneratorExp]): func, then _comp_exp: snapshot read / written / maybe_written,
+           visit elt, then the generator (target as a write, then range and its argument), then
+           set = (set - [v]) | snapshot for the three sets (prewritten / postread / postwritten are NOT restored) *)
+        let s00 := read_var name_sum l s in
+        let s0 := if sw_compiter sw then visit_e l k (read_var name_range l s00) else s00 in
+        let s3 := visit_e l k (read_var name_range l (written_var v l (visit_e l b s0))) in
+        {| prew := prew s3;
+           mayw := fold_left (fun acc x => add x acc) (mayw s0) (remove v (mayw s3));
+           wr := fold_left (fun acc x => add x acc) (wr s0) (remove v (wr s3));
+           rd := fold_left (fun acc x => add x acc) (rd s0) (remove v (rd s3));
+           postrd := postrd s3; postwr := postwr s3; cond := cond s3; depth := depth s3; pnest := pnest s3 |}
     end.
 
   (* _handle_conditional_context *)
